@@ -90,7 +90,31 @@ def worker(args) -> dict:
                     rec = json.loads(f.read_text())
                     ctx.count("corpus_cases")
                     _run_guarded(mod, ctx, rec.get("case", rec))
-            for case in mod.gen(ctx):
+            it = iter(mod.gen(ctx))
+            while True:
+                try:
+                    case = next(it)
+                except StopIteration:
+                    break
+                except Exception as e:
+                    # A generator that consults the code under test (cone constants, constructor defaults, u*) can
+                    # die on a changed tree.  Never on the unchanged one; there it is a harness bug.  Reported like
+                    # any other undigestible behaviour — (R) if VOPy itself raised, (F) otherwise — and the cases
+                    # generated so far still count; the remaining families of this run are lost (said in `what`).
+                    if isinstance(e, RuntimeError) and "Lean driver" in str(e):
+                        raise
+                    tb = traceback.extract_tb(e.__traceback__)
+                    in_vopy = bool(tb) and (os.sep + "vopy" + os.sep) in tb[-1].filename and tb[-1].filename.startswith(REPO)
+                    fr = tb[-1] if tb else None
+                    where = f"{Path(fr.filename).name}:{fr.name}" if fr else "?"
+                    ctx.violation(("uncaught-crash:gen:" + core.exc_key(e)) if in_vopy
+                                  else f"harness-exception:gen:{type(e).__name__}@{where}",
+                                  f"case generation stopped: {type(e).__name__}: {str(e)[:160]} "
+                                  "(the generator consulted the implementation and could not digest the answer; "
+                                  "later case families of this run were not generated)",
+                                  {"generator": True}, kind="R" if in_vopy else "F",
+                                  detail={"traceback": traceback.format_exc()[-3000:]})
+                    break
                 _run_guarded(mod, ctx, case)
                 if not ctx.time_left():
                     ctx.info("time budget reached; generation stopped early")
@@ -238,9 +262,19 @@ def main():
             p = core.write_replay(args.id, v)
             lines.append(f"VIOLATION property={args.id} replay={p} no-failing-input-found")
         if lb["failures"]:
+            tr_ = lb.get("translator") or {}
+            failed = lb.get("failed_obligations", [])
             rec = {"property": args.id, "kind": "proof", "key": "lean-obligations",
                    "broken": lb["failures"], "log": lb.get("log", ""),
-                   "what": "Lean proof obligations for this property no longer check"}
+                   # exactly the obligations that no longer check (the others stay discharged), and, when the
+                   # source tie is what broke, what the translator could not read / which agreement lemmas fail
+                   "failed_obligations": failed,
+                   "discharged": len(lb["discharged"]), "obligations": len(lb["obligations"]),
+                   "translator_errors": tr_.get("translator_errors"),
+                   "agreement_failed": (tr_.get("agreement") or {}).get("failed"),
+                   "what": (f"{len(failed)} of {len(lb['obligations'])} Lean proof obligations no longer check: "
+                            + ", ".join(failed[:20]) if failed else
+                            "Lean proof obligations for this property no longer check")}
             p = core.write_replay(args.id, rec)
             lines.append(f"VIOLATION property={args.id} replay={p} no-failing-input-found")
     for k in res["known"]:
@@ -255,10 +289,11 @@ def main():
             "obligations": nob,
             "discharged": len(lb["discharged"]),
             "obligation_names": lb["obligations"],
-            "checker_cmd": f"cd /verif/lean && lake build VOPyVerif.Props.{args.id} && lake env lean ../out/audit/Audit_{args.id}.lean  (#print axioms on every obligation)",
+            "checker_cmd": f"cd /verif/lean && lake build VOPyVerif.Props.{args.id} [VOPyVerif.Props.{args.id}Source] && lake env lean ../out/audit/Audit_{args.id}[Source].lean  (#print axioms on every obligation; model theorems and source-agreement obligations are separate modules)",
             "trusted_base": TRUSTED,
             "axioms_used": sorted({a for l in lb["axioms"].values() for a in l}),
             "proof_failures": lb["failures"],
+            "failed_obligations": lb.get("failed_obligations", []),
             "translator": lb.get("translator"),
             "evaluations": res["evaluations"],
             "distinct_nontrivial": len(res["distinct"]),
